@@ -28,6 +28,8 @@ TProbe ==
               \cup Flg(refused /\ R.r.drops # 1, "captured_state_not_released")
               \cup Flg(refused /\ (R.r.flag_rc # 1 \/ R.r.usz_rc # 1), "flag_reference_leaked")
               \cup Flg(refused /\ R.r.fd_open = 1, "descriptor_leaked")
+              \cup Flg(refused /\ R.r.fd_open # -1 /\ R.r.fd_closes # 1,
+                       "captured_descriptor_not_closed_exactly_once")
               \cup Flg(R.r.usable # 1, "library_unusable_afterwards")
               \cup Flg(R.r.inst_ok = 0, "instance_broken_by_rejected_add")
 
